@@ -48,6 +48,8 @@ var c17Vals = map[string]any{
 	"sq1": "'x'", "sq2": "\"x\"", "sbr": "[a,b]", "smap": "map[a:b]", "sjson": "{\"a\":1}", "sempty": "", "spad": " x ", "scomma": "a,b", "seq": "a=b", "scolon": "a:b", "sph": "x}y",
 	"ls": []any{"a", "b"}, "li": []any{1, 2}, "lmix": []any{"1.10", "x"},
 	"m": map[string]any{"a": "x", "n": 3}, "ms": map[string]any{"a": "1.10", "n": 7}, "mss": map[string]any{"a": "x", "b": "1.10"},
+	// keys containing the path separator, nested maps, an empty nested map
+	"mdot": map[string]any{"a.b": "x", "c": "y"}, "mnest": map[string]any{"in": map[string]any{"x": "1"}, "e": map[string]any{}, "s": "t"},
 }
 
 var c17Types = map[string]reflect.Type{
@@ -81,8 +83,11 @@ func c17Compatible(vk, tn string) bool {
 		}
 		return tn == "strs" || tn == "any"
 	case map[string]any:
-		if vk == "mss" {
+		if vk == "mss" || vk == "mdot" {
 			return tn == "mapstr" || tn == "mapany" || tn == "any"
+		}
+		if vk == "mnest" {
+			return tn == "mapany" || tn == "any"
 		}
 		return tn == "mapany" || tn == "struct" || tn == "pstruct" || tn == "any"
 	}
